@@ -61,6 +61,7 @@ type PathResult struct {
 	NewWork   [][]int           `json:"-"`
 	FnInstr   map[string]int    `json:"-"`
 	Events    []string          `json:"notes,omitempty"`
+	Sampled   bool              `json:"-"`
 }
 
 type Config struct {
@@ -80,6 +81,7 @@ type Config struct {
 	ModulePath string
 	DumpDir    string
 	Publish    func([]int)
+	NeedSample func() bool
 	Witnessed  func(string) bool
 }
 
@@ -404,6 +406,11 @@ func runPath(cfg *Config, sol *Solver, prefix []int) (res *PathResult) {
 	ex.startMain()
 	ex.loop()
 	res.Outcome = OutOK
+	// witness vectors of complete single-goroutine paths, for native cross-validation
+	if cfg.NeedSample != nil && len(ex.gs) == 1 && len(res.Nondet) > 0 && cfg.NeedSample() {
+		ex.extractModel()
+		res.Sampled = res.Outcome == OutOK
+	}
 	return res
 }
 
